@@ -1,10 +1,10 @@
 """C05 configuration for ./check (see checks/propcfg.py for the keys)."""
 CFG = {
-    "modules": ["VaxisModel.Props.C05", "VaxisModel.Props.C05Bodies", "VaxisModel.Props.C05Dispatch", "VaxisModel.Props.C05Payload", "VaxisModel.Props.C05Overflow", "VaxisModel.Witness.F105i", "VaxisModel.Props.C05Events", "VaxisModel.Props.C05Draw", "VaxisModel.Props.C05DrawBody", "VaxisModel.Props.C05Loop", "VaxisModel.Witness.F105g", "VaxisModel.Witness.F105h",
+    "modules": ["VaxisModel.Props.C05", "VaxisModel.Props.C05Bodies", "VaxisModel.Props.C05Dispatch", "VaxisModel.Props.C05Payload", "VaxisModel.Props.C05Overflow", "VaxisModel.Props.C05Replies", "VaxisModel.Witness.F105i", "VaxisModel.Props.C05Events", "VaxisModel.Props.C05Draw", "VaxisModel.Props.C05DrawBody", "VaxisModel.Props.C05Loop", "VaxisModel.Witness.F105g", "VaxisModel.Witness.F105h",
                 "VaxisModel.Witness.F15", "VaxisModel.Witness.F16", "VaxisModel.Witness.F17", "VaxisModel.Witness.F18",
                 "VaxisModel.Witness.F19", "VaxisModel.Witness.F20", "VaxisModel.Witness.F105a", "VaxisModel.Witness.F105b",
                 "VaxisModel.Witness.F105c", "VaxisModel.Witness.F105d", "VaxisModel.Witness.F105e", "VaxisModel.Witness.F105f"],
-    "extractors": ["C05"],
+    "extractors": ["C05", "C12"],
     "drivers": ["C05", "C05Events", "C05Draw"],
     "stateful": True,
     "trivial_prefix": ("-",),
